@@ -43,9 +43,22 @@ pub struct Case {
     /// the built-in brk handler is installed (its heap placement and break arithmetic are outputs too)
     #[serde(default)]
     pub brk: bool,
+    /// Some: the case is ONE instruction of any supported form (the native checks' generator): only the
+    /// registers the instruction reads are written, all others keep the constructor's random fill
+    #[serde(default)]
+    pub nat: Option<crate::mach::NCase>,
 }
 
-pub struct C20;
+pub struct C20 {
+    /// instruction generator of the native checks, for the single-instruction cases
+    gen: Option<(crate::diff::Engine, crate::insn::GenOpts)>,
+}
+
+impl C20 {
+    pub fn new() -> C20 {
+        C20 { gen: None }
+    }
+}
 
 /// Registers that some instruction of the program reads, incl. implicit ones: bits 0–15 GPRs
 /// (encoding order), bits 16–31 XMM0–15.
@@ -86,6 +99,9 @@ pub struct RunResult {
 
 /// Run the case on a freshly constructed machine and digest everything the property lists.
 pub fn run_once(c: &Case) -> Result<RunResult, String> {
+    if let Some(nc) = &c.nat {
+        return run_nat(nc);
+    }
     let img = prog::assemble(&c.prog, BASE);
     let mut sym_addrs: Vec<u64> = vec![];
     let mut ax = match &c.elf_syms {
@@ -242,6 +258,96 @@ pub fn run_once(c: &Case) -> Result<RunResult, String> {
     Ok(RunResult { digest: h.finish(), text })
 }
 
+/// One instruction on a machine where only the registers it reads (iced's used_registers: explicit,
+/// implicit, address registers, partial-width destinations) are written; everything the property lists is
+/// digested over the registers that are defined afterwards.
+fn run_nat(nc: &crate::mach::NCase) -> Result<RunResult, String> {
+    use crate::native::{ArenaKind, ARENAS, CODE_BASE};
+    let images = crate::mach::arena_images(nc);
+    let code_img = &images.iter().find(|(k, _)| *k == ArenaKind::Code).unwrap().1;
+    let bytes = nc.code_bytes();
+    let ins = Decoder::with_ip(64, &bytes, nc.rip, DecoderOptions::NONE).decode();
+    if ins.is_invalid() {
+        return Err("undecodable single-instruction case".into());
+    }
+    let mut f = InstructionInfoFactory::new();
+    let (mut reads, mut defines) = (1u32 << 4, 0u32); // RSP is always explicit
+    for ur in f.info(&ins).used_registers() {
+        let r = ur.register();
+        if r.is_xmm() {
+            if !matches!(ur.access(), OpAccess::Write) {
+                reads |= 1 << (16 + r.number());
+            }
+            if matches!(ur.access(), OpAccess::Write | OpAccess::ReadWrite) {
+                defines |= 1 << (16 + r.number());
+            }
+            continue;
+        }
+        if !r.is_gpr() {
+            continue;
+        }
+        let n = r.full_register().number();
+        let full_write = matches!(ur.access(), OpAccess::Write) && (r.is_gpr64() || r.is_gpr32());
+        if full_write {
+            defines |= 1 << n;
+        } else {
+            reads |= 1 << n;
+        }
+    }
+    let mut ax = Axecutor::new(code_img, CODE_BASE, nc.rip).map_err(|e| e.to_string())?;
+    for d in ARENAS.iter() {
+        if d.kind == ArenaKind::Code {
+            continue;
+        }
+        let img = images.iter().find(|(k, _)| *k == d.kind).unwrap().1.clone();
+        ax.mem_init_area(d.base, img).map_err(|e| e.to_string())?;
+        if d.prot != 3 {
+            ax.mem_prot(d.base, d.prot).map_err(|e| e.to_string())?;
+        }
+    }
+    for i in 0..16 {
+        if reads >> i & 1 == 1 {
+            ax.reg_write_64(GPR[i], nc.gpr[i]).map_err(|e| e.to_string())?;
+        }
+        if reads >> (16 + i) & 1 == 1 {
+            ax.reg_write_128(crate::mach::SRXMM[i], nc.xmm[i][0] as u128 | (nc.xmm[i][1] as u128) << 64).map_err(|e| e.to_string())?;
+        }
+    }
+    ax.verif_set_rflags(nc.rflags & crate::native::GUEST_FLAG_MASK);
+    ax.write_fs(nc.fs);
+    ax.write_gs(nc.gs);
+    let result = match step(&mut ax) {
+        Api::Ok(b) => {
+            reads |= defines;
+            format!("Ok({})", b)
+        }
+        Api::Err(e) => format!("Err({})", e),
+        Api::Panic(p) => format!("PANIC({} at {})", p.message, p.location),
+    };
+    let mut h = Fnv::new();
+    let mut text = format!("[{}] {} ", nc.code, ins);
+    for i in 0..16 {
+        if reads >> i & 1 == 1 {
+            let v = ax.reg_read_64(GPR[i]).unwrap();
+            h.u64(i as u64).u64(v);
+            text.push_str(&format!("{}={:#x} ", crate::mach::GPR_NAMES[i], v));
+        }
+        if reads >> (16 + i) & 1 == 1 {
+            let v = ax.reg_read_128(crate::mach::SRXMM[i]).unwrap();
+            h.u64(100 + i as u64).u64(v as u64).u64((v >> 64) as u64);
+            text.push_str(&format!("xmm{}={:#x} ", i, v));
+        }
+    }
+    let rip = ax.reg_read_64(SR::RIP).unwrap();
+    h.u64(rip).u64(ax.verif_rflags()).u64(ax.verif_executed()).u64(ax.read_fs()).u64(ax.read_gs());
+    for a in ax.verif_areas() {
+        h.u64(a.start).u64(a.length).u64(a.access as u64).bytes(&a.data);
+    }
+    h.str(&result);
+    text.push_str(&format!("rip={:#x} rflags={:#x} result={}", rip, ax.verif_rflags(), result.replace('\n', " | ").chars().take(300).collect::<String>()));
+    Ok(RunResult { digest: h.finish(), text })
+}
+
 /// `axverif c20-digest`: read a case (JSON) from stdin, print its digest. Used for the cross-process twin.
 pub fn digest_main() -> i32 {
     crate::util::install_panic_hook();
@@ -281,7 +387,25 @@ impl Property for C20 {
             Tier::Thorough => 8_000_000,
         }
     }
+    fn setup(&mut self) {
+        let eng = crate::diff::Engine::new_emu_only();
+        let floor = eng.floor.clone();
+        let forms = eng.form_indices(|f| f.class != crate::insn::Class::Os && floor.contains(&f.name));
+        let mut o = crate::insn::GenOpts::benign(forms);
+        o.allow_fs = true;
+        self.gen = Some((eng, o));
+    }
     fn decode(&mut self, tape: &TapeVal) -> Case {
+        // 1/4: one instruction of any supported form, operands and state from the native checks' generator
+        if tape[0][27] % 4 == 0 {
+            if let Some((eng, o)) = &self.gen {
+                let words: Vec<u64> = tape.iter().skip(1).flat_map(|r| r.iter().copied()).chain(std::iter::repeat(0).take(120)).collect();
+                let mut tn = Tape::new(&words);
+                if let Some(nc) = crate::insn::gen_case(&mut tn, &eng.forms, o) {
+                    return Case { prog: vec![], written: 0, seed: 0, flags: 0, fs: 0, gs: 0, limit: 1, hooks: vec![], cross_process: tape[0][26] % 16 == 0, xmm_written: 0, elf_syms: None, start_frame: None, anywhere: vec![], brk: false, nat: Some(nc) };
+                }
+            }
+        }
         let mut t = Tape::new(&tape[0]);
         let n = tape.len() - 1;
         let seed = t.raw();
@@ -352,9 +476,15 @@ impl Property for C20 {
                 }
             }
         }
+        // some SYSCALLs become INT 0x80 / INT 3-style interrupts (error texts of unhandled interrupts)
+        for i in 0..p.len() {
+            if matches!(p[i], PI::Syscall) && t.below(3) == 0 {
+                p[i] = PI::Int { n: t.pick(&[0x80u8, 0x03, 0x21]) };
+            }
+        }
         // the handler reads the call number and its argument: RAX and RDI are explicit inputs then
         let written = if brk { written | 1 | 1 << 7 } else { written };
-        Case { prog: p, written, seed, flags, fs, gs, limit, hooks, cross_process, xmm_written, elf_syms, start_frame, anywhere, brk }
+        Case { prog: p, written, seed, flags, fs, gs, limit, hooks, cross_process, xmm_written, elf_syms, start_frame, anywhere, brk, nat: None }
     }
 
     fn exec(&mut self, c: &Case) -> CaseOut {
@@ -368,7 +498,10 @@ impl Property for C20 {
             Err(e) => return CaseOut::fail("HARNESS-FAULT|C20-run".into(), e),
         };
         let unwritten = 16 - (c.written | 1 << 4).count_ones();
-        out.nontrivial = unwritten > 0 && c.prog.len() >= 2;
+        out.nontrivial = unwritten > 0 && (c.prog.len() >= 2 || c.nat.is_some());
+        if c.nat.is_some() {
+            out = out.class("single-instruction-of-any-form");
+        }
         out = out.class(if a.text.contains("result=Err") { "ends-in-error" } else { "finishes" });
         if !c.hooks.is_empty() {
             out = out.class("with-hooks");
@@ -384,6 +517,9 @@ impl Property for C20 {
         }
         if c.brk && c.prog.iter().any(|p| matches!(p, PI::Syscall)) {
             out = out.class("brk-handler-with-syscalls");
+        }
+        if c.prog.iter().any(|p| matches!(p, PI::Int { .. })) && c.hooks.len() >= 2 {
+            out = out.class("interrupt-with-several-hooks");
         }
         if c.prog.iter().any(|p| matches!(p, PI::Syscall)) && c.hooks.len() >= 2 {
             out = out.class("syscall-with-several-hooks");
@@ -438,10 +574,10 @@ impl Property for C20 {
     }
 
     fn rule(&self) -> String {
-        "cases: slot-grid programs of 2–20 instructions (all generated instruction kinds incl. stack, calls, register-indirect transfers) where every register any instruction may read (iced used_registers incl. implicit and partial-width destinations) is written explicitly and the others keep the constructor's random fill; explicit flags, FS/GS, a data area, a stack; XMM moves/xor/load/store incl. both MOVUPS register encodings; 1/3 of the programs loaded from a generated ELF whose symbol table has aliases (two names on one address); 0–3 identical scripted hooks (incl. unhooked SYSCALLs beside hooks on other mnemonics); for 1/4 of the cases the stack is an entry frame with argv/envp strings and 0–2 areas are placed by mem_init_anywhere / mem_init_zero_anywhere, the addresses handed out being part of the digest; for 1/4 the built-in brk handler serves the program's SYSCALLs; oracle: two independently constructed machines in one process — and for 1/16 of the cases a separately exec'd process (fresh ASLR and hash seeds) — must agree on a digest of defined registers, flags, FS/GS, every area byte, executed count, structured trace, call stack, rendered trace()/call_stack() text, resolve_symbol of every symbol address, result and full error text, and hook events; non-trivial = ≥1 register left random and ≥2 instructions; distinct by hash(case)".into()
+        "cases: 1/4 single instructions of every supported non-OS form (the native checks' generator: all operand shapes, all registers incl. byte registers, memory operands) on a machine where only the registers the instruction reads are written; 3/4 slot-grid programs of 2–20 instructions (all generated instruction kinds incl. stack, calls, register-indirect transfers) where every register any instruction may read (iced used_registers incl. implicit and partial-width destinations) is written explicitly and the others keep the constructor's random fill; explicit flags, FS/GS, a data area, a stack; XMM moves/xor/load/store incl. both MOVUPS register encodings; 1/3 of the programs loaded from a generated ELF whose symbol table has aliases (two names on one address); 0–3 identical scripted hooks (incl. unhooked SYSCALLs beside hooks on other mnemonics); for 1/4 of the cases the stack is an entry frame with argv/envp strings and 0–2 areas are placed by mem_init_anywhere / mem_init_zero_anywhere, the addresses handed out being part of the digest; for 1/4 the built-in brk handler serves the program's SYSCALLs; oracle: two independently constructed machines in one process — and for 1/16 of the cases a separately exec'd process (fresh ASLR and hash seeds) — must agree on a digest of defined registers, flags, FS/GS, every area byte, executed count, structured trace, call stack, rendered trace()/call_stack() text, resolve_symbol of every symbol address, result and full error text, and hook events; non-trivial = ≥1 register left random and ≥2 instructions; distinct by hash(case)".into()
     }
     fn required_classes(&self, _tier: Tier) -> Vec<String> {
-        ["ends-in-error", "finishes", "with-hooks", "cross-process", "elf-with-symbol-aliases", "uses-xmm", "entry-frame-with-strings", "anywhere-areas", "syscall-with-several-hooks", "brk-handler-with-syscalls"].iter().map(|s| s.to_string()).collect()
+        ["ends-in-error", "finishes", "with-hooks", "cross-process", "elf-with-symbol-aliases", "uses-xmm", "entry-frame-with-strings", "anywhere-areas", "syscall-with-several-hooks", "brk-handler-with-syscalls", "single-instruction-of-any-form", "interrupt-with-several-hooks"].iter().map(|s| s.to_string()).collect()
     }
     fn assumptions(&self) -> Vec<String> {
         vec!["the defined set (explicitly written ∪ fully written by an executed instruction or a hook; GPRs and XMM) is what is compared".into(), "pipe descriptor numbers do not occur (no pipe handler in these programs)".into()]
